@@ -391,3 +391,36 @@ func vh_C07_BufferReusedAcrossRounds() {
 	vfAssert("fifo", vfSliceEq(l.delivered, l.accepted))
 	vfReach("end")
 }
+
+// the two integer limits as SYMBOLIC 64-bit values: bufferSizeMaximum any non-negative int, nodeHookPoolSize any int at
+// all (the code only compares them with its own counters, so the solver decides each comparison for all values at once).
+// One goroutine offers k <= 3 (thorough 4) items to a queue nobody reads: exactly min(k, 1+bufferSizeMaximum) are accepted, the rest
+// are refused with ErrQueueIsFull, and a drain returns the accepted ones in order while the free-node pass runs.
+func vh_C07_SymbolicLimits() {
+	vfSetMapOrder(2)
+	bufMax, hooks := vfInt("bufmax"), vfInt("node-hooks")
+	vfAssume(bufMax >= 0)
+	q := NewBufferedChannelQueue[c07Item](1, bufMax, hooks)
+	if vfChoose("free-node-pass-runs", 2) == 1 {
+		q.SetFreeNodeHookPoolIntervalDuration(50 * time.Millisecond)
+	}
+	l := &c07Log{}
+	k := vfRange("offers", 1, 3+vfTier())
+	for i := 0; i < k; i++ {
+		err := q.Offer(l.item(i))
+		vfAssert("offer-error-is-full-or-nil", err == nil || err == ErrQueueIsFull)
+		// room is exactly: the channel slot plus bufMax buffer places
+		vfAssert("offer-accepts-while-room", vfImplies(vfOr(i == 0, bufMax >= i), err == nil))
+		vfAssert("offer-full-error", vfImplies(vfAnd(i > 0, bufMax < i), err == ErrQueueIsFull))
+		l.accept(i, err)
+	}
+	vfAssert("bounded", vfOr(bufMax >= k, len(l.accepted) <= 1+bufMax))
+	vfQuiesce()
+	vfAssert("count-at-quiescence", q.Count() == len(l.accepted))
+	c07DrainHow(q, l, len(l.accepted), vfChoose("drain-how", 2))
+	c07Check(l, true)
+	vfAssert("fifo", vfSliceEq(l.delivered, l.accepted))
+	vfQuiesce()
+	vfAssert("count-after-drain", q.Count() == 0)
+	vfReach("end")
+}
